@@ -4,4 +4,4 @@ Require Extraction ExtrOcamlBasic.
 Extraction Language OCaml.
 Extraction "model.ml" exported table_ok drv_lit drv_flt drv_capchecks comp_fields is_array is_union py_str_int z_of_dec
   filter_bits2bytes_ceil get_best_fit ser_spec wf_ty bmax extent ct_bits ct_unsigned dmodels
-  c_filter_type_from_primitive cpp_filter_type_from_primitive c_lang cpp_lang is_saturated exported_port emit_ok drv_feval float_rule exact64 exported_flag n_c_has_port n_cpp_has_port n_cpp_is_service_type names_ok filter_literal_bool c_full_name c_full_name_and_version py_const_token.
+  c_filter_type_from_primitive cpp_filter_type_from_primitive c_lang cpp_lang is_saturated exported_port emit_ok drv_feval float_rule exact64 exported_flag n_c_has_port n_cpp_has_port n_cpp_is_service_type n_cpp_svc n_IsService n_IsRequest n_IsResponse exported_port_k c_macros_distinct names_ok filter_literal_bool c_full_name c_full_name_and_version py_const_token.
